@@ -118,6 +118,13 @@ def hosts_for_rule(rule, rnd):
     if labels[0] == "*":
         # wildcard instantiated with a label that also starts a longer rule, when there is one
         out.append("www." + ".".join(inst[1:]))
+    if rule.startswith("!") and len(labels) > 1:
+        # labels that are PARTS of the excepted label, or contain it: an exception names one whole label
+        rest = ".".join(inst[1:])
+        lab = inst[0]
+        for near in sorted(set([lab[:-1], lab[1:], lab[:1], lab + lab, "x" + lab, lab + "x"]) - set(["", lab])):
+            out.append(near + "." + rest)
+            out.append("shop." + near + "." + rest)
     return out
 
 
